@@ -69,6 +69,8 @@ func liveProfile() Profile {
 	p.Weights[KSlashHook] = 6
 	p.Weights[KSlash] = 6
 	p.Weights[GDrainAsset] = 5
+	p.Weights[KValExit] = 1
+	p.Weights[KValCreate] = 1
 	return p
 }
 
@@ -200,7 +202,7 @@ func takerateProfile() Profile {
 func powerProfile() Profile {
 	p := baseProfile()
 	p.Name = "power"
-	p.Weights = map[string]int{KDelegate: 20, KUndelegate: 8, KRedelegate: 6, KClaim: 2, KBlock: 30, KNatDel: 8, KNatUndel: 8, KNatRedel: 4, KSlash: 6, KSlashHook: 1, KJail: 3, KUnjail: 3, KUpdate: 4, KMaxVals: 2, KCreate: 1, GQuietNative: 6}
+	p.Weights = map[string]int{KDelegate: 20, KUndelegate: 8, KRedelegate: 6, KClaim: 2, KBlock: 30, KNatDel: 8, KNatUndel: 8, KNatRedel: 4, KSlash: 6, KSlashHook: 1, KJail: 3, KUnjail: 3, KUpdate: 4, KMaxVals: 2, KCreate: 1, GQuietNative: 6, KValExit: 2, KValCreate: 1}
 	p.Delays = []int64{0, 0, 0, sec, 7 * day}
 	p.TakeRates = []string{"0", "0", "0.001", "0.5"}
 	p.ChRates = []string{"1", "1", "0.5", "0.99"}
@@ -380,8 +382,13 @@ func init() {
 		Rule: "stateful rapid histories over the full op alphabet (core profile); non-trivial = history with >=1 successful undelegation and >=1 of {slash while an unbonding from that validator is pending, take-rate deduction, matured payout, donation}; distinct = distinct hash of the concrete op list",
 	})
 	register(&Spec{
-		ID:      "C03",
-		Profile: func(tier string) Profile { return tierSteps(baseProfile(), tier) },
+		ID: "C03",
+		Profile: func(tier string) Profile {
+			p := baseProfile()
+			p.Weights[KValExit] = 1
+			p.Weights[KValCreate] = 1
+			return tierSteps(p, tier)
+		},
 		Oracles: func() []Oracle { return []Oracle{NewOracleC03()} },
 		NonTrivial: func(x *Exec) bool {
 			return x.Has("c03:asset-empty-after-stake") || x.Has("c03:clamp") || x.Has("takerate-deducted") && x.Has("ok:"+KUndelegate) || x.Has("slashed-with-stake") && x.Has("ok:"+KUndelegate)
